@@ -257,3 +257,81 @@ theorem overdue_not_skipped (now : Nat) : ∀ (ks : List Nat) (s : CState) (k at
           exact overdue_not_skipped now ks s k at_ m hk' hg hexp
 
 end SmppVerif.Lemmas.SweepTasks
+
+/-! ### the tier 2 model is the special case without interleaving -/
+
+namespace SmppVerif.Lemmas.SweepTasks
+open SmppVerif SmppVerif.Corr SmppVerif.SweepTasks SmppVerif.Lemmas.Corr SmppVerif.Lemmas.Expiry
+
+/-- hook calls of an observation -/
+def outsOf : Obs → List Out
+  | .timeout _ o => o
+  | _ => []
+
+/-- a sweep resumed at once every time it suspends, until it is through -/
+def sweepAll (now : Nat) : Nat → List Nat → CState → CState × List Obs
+  | 0, _, s => (s, [])
+  | f + 1, ks, s =>
+    match sweepTurn now ks s with
+    | (s1, obs, some rest) => ((sweepAll now f rest.keys s1).1, obs ++ (sweepAll now f rest.keys s1).2)
+    | (s1, obs, none) => (s1, obs)
+
+theorem sweepAll_skip (now f k : Nat) (ks : List Nat) (s : CState)
+    (h : sweepTurn now (k :: ks) s = sweepTurn now ks s) :
+    sweepAll now (f + 1) (k :: ks) s = sweepAll now (f + 1) ks s := by
+  simp only [sweepAll, h]
+
+/-- resumed at once, the turns of a sweep add up to the atomic sweep of the tier 2 model (`sweepStore`, then the cleaning
+    of the delivery stores) -/
+theorem sweepAll_eq (now : Nat) : ∀ (ks : List Nat) (s : CState) (fuel : Nat), ks.length < fuel →
+    (sweepAll now fuel ks s).1 = finish (sweepStore now ks s).1 now ∧
+    (sweepAll now fuel ks s).2.flatMap outsOf = (sweepStore now ks s).2
+  | [], s, fuel, hf => by
+    cases fuel with
+    | zero => simp at hf
+    | succ f => simp [sweepAll, sweepTurn, sweepStore]
+  | k :: ks, s, fuel, hf => by
+    cases fuel with
+    | zero => simp at hf
+    | succ f =>
+      have hf' : ks.length < f := by simp at hf; omega
+      cases hg : aget s.store k with
+      | none =>
+        have h1 : sweepTurn now (k :: ks) s = sweepTurn now ks s := by rw [sweepTurn, hg]
+        have h2 : sweepStore now (k :: ks) s = sweepStore now ks s := by rw [sweepStore, hg]
+        rw [sweepAll_skip now f k ks s h1, h2]
+        exact sweepAll_eq now ks s (f + 1) (by omega)
+      | some p =>
+        obtain ⟨at_, m⟩ := p
+        by_cases hexp : now - at_ > s.ttlResp
+        · have ih := sweepAll_eq now ks (expired { s with store := adel s.store k } m).1 f hf'
+          have h1 : sweepTurn now (k :: ks) s =
+              ((expired { s with store := adel s.store k } m).1,
+               [.timeout k (expired { s with store := adel s.store k } m).2], some ⟨now, ks⟩) := by
+            rw [sweepTurn, hg]; dsimp only; rw [if_pos hexp]
+          have h2 : sweepStore now (k :: ks) s =
+              ((sweepStore now ks (expired { s with store := adel s.store k } m).1).1,
+               (expired { s with store := adel s.store k } m).2 ++
+                 (sweepStore now ks (expired { s with store := adel s.store k } m).1).2) := by
+            rw [sweepStore, hg]; dsimp only; rw [if_pos hexp]
+          simp only [sweepAll, h1, h2]
+          refine ⟨ih.1, ?_⟩
+          rw [List.flatMap_append, ih.2]
+          simp [outsOf]
+        · have h1 : sweepTurn now (k :: ks) s = sweepTurn now ks s := by
+            rw [sweepTurn, hg]; dsimp only; rw [if_neg hexp]
+          have h2 : sweepStore now (k :: ks) s = sweepStore now ks s := by
+            rw [sweepStore, hg]; dsimp only; rw [if_neg hexp]
+          rw [sweepAll_skip now f k ks s h1, h2]
+          exact sweepAll_eq now ks s (f + 1) (by omega)
+
+/-- `_remove_expired()` of the tier 2 model = the sweep of the turn-level model when nobody else runs in between -/
+theorem removeExpired_eq_sweepAll (s : CState) (now : Nat) :
+    (removeExpired s now).1 = (sweepAll now (s.store.length + 1) (s.store.map (·.1)) s).1 ∧
+    (removeExpired s now).2 = (sweepAll now (s.store.length + 1) (s.store.map (·.1)) s).2.flatMap outsOf := by
+  have h := sweepAll_eq now (s.store.map (·.1)) s (s.store.length + 1) (by simp)
+  unfold removeExpired
+  dsimp only
+  exact ⟨h.1.symm, h.2.symm⟩
+
+end SmppVerif.Lemmas.SweepTasks
